@@ -192,6 +192,10 @@ func (sc *sliceContainers) seek(key uint64) (int, bool) {
 
 func (sc *sliceContainers) Iterator(key uint64) (citer ContainerIterator, found bool) {
 	i, found := sc.seek(key)
+	if found && sc.containers[i] == nil {
+		// a removed container leaves a nil entry behind, which iteration skips
+		found = false
+	}
 	return &sliceIterator{e: sc, i: i}, found
 }
 
